@@ -48,6 +48,9 @@ extern "C" {
     fn dirfd(d: *mut u8) -> i32;
     fn closedir(d: *mut u8) -> i32;
     fn socketpair(domain: i32, ty: i32, proto: i32, sv: *mut i32) -> i32;
+    fn socket(domain: i32, ty: i32, proto: i32) -> i32;
+    fn bind(fd: i32, addr: *const u8, len: u32) -> i32;
+    fn connect(fd: i32, addr: *const u8, len: u32) -> i32;
     fn dup2(old: i32, new: i32) -> i32;
     fn fcntl(fd: i32, cmd: i32, arg: i32) -> i32;
 }
@@ -163,7 +166,11 @@ impl Cx {
             marker::inject(i.scope, i.nr, i.k, i.ret, i.count);
         }
         let r = op();
-        marker::disarm();
+        // "post" injections (the call is executed, the caller is told it failed: what close() does on EINTR) stay
+        // armed until END: the closes that OwnedFd::drop issues for the handed-back value belong to the repository
+        if !self.inj.is_some_and(|i| i.scope & marker::SCOPE_POST != 0) {
+            marker::disarm();
+        }
         let (is_err, code) = match &r {
             Ok(_) => (0, 0),
             Err(e) => (1, e.code()),
@@ -1339,6 +1346,7 @@ const SCENARIOS: &[Scn] = &[
     ("arg_timeout", args::TIMEOUT_NPARAMS, args::s_arg_timeout),
     ("arg_openopts", args::OPENOPTS_NPARAMS, args::s_arg_openopts),
     ("arg_misc", args::MISC.len() as i64, args::s_arg_misc),
+    ("arg_peer", args::PEER_NPARAMS, args::s_arg_peer),
 ];
 
 fn main() {
